@@ -72,20 +72,6 @@ def classify(c, ir):
 def nontrivial(c, ir):
     return H.script_depth(c['script']) >= 2 or bool(H.script_kinds(c['script']) & {'if', 'ife', 'while', 'with', 'down', 'in', 'tell'})
 
-METHOD_OPS = ('concat', 'concats', 'contains', 'start')
-def has_literal_method_receiver(script):
-    """an integer literal / unary minus / a parenthesised condition as the receiver of a method-style string operator"""
-    hit = [False]
-    def fe(e):
-        if e[0] == 'bin' and e[1] in METHOD_OPS and e[2][0] in ('int', 'neg', 'not'):
-            hit[0] = True
-    for h in script['handlers']:
-        for st in h['body']:
-            H.walk_node(st, True, lambda n: None, fe)
-            if st[0] in ('if', 'ife', 'while') and st[1][0] == 'bin' and st[1][1] in METHOD_OPS:
-                hit[0] = True
-    return hit[0]
-
 def has_global_chunk_target(script):
     txt = json.dumps(H.script_to_json(H.strip_names(script)))
     return '"chunk"' in txt and '["glob"' in txt
@@ -105,9 +91,7 @@ def judge(c, ir, ms):
     f = ('emitted JavaScript is not valid: %s' % err) if err else H.js_oracle(c['script'], js)
     if f:
         fid = None
-        if same_as_model and has_literal_method_receiver(c['script']):
-            fid = 'C04-method-receiver'
-        elif same_as_model and has_global_chunk_target(c['script']):
+        if same_as_model and has_global_chunk_target(c['script']):
             fid = 'C04-global-chunk-target'
         out.append((f, 'property', fid))
         return out
